@@ -19,7 +19,11 @@ for f in files:
     if f == "known_findings.jsonl":
         new = sh("git", "show", br + ":" + f).split("\n")
         cur = open(f).read().split("\n") if os.path.exists(f) else []
-        add = [l for l in new if l.strip() and l not in cur]
+        import json as _j
+        def _own(l):
+            try: return _j.loads(l).get("property") in owned
+            except Exception: return False
+        add = [l for l in new if l.strip() and l not in cur and _own(l)]
         if add:
             with open(f, "a") as fh:
                 for l in add: fh.write(l + "\n")
